@@ -59,8 +59,7 @@ EXHAUSTIVE = {"quick": False, "thorough": False}
 FINDING_CLASSES = {1: "save-skip-none-null-over-default",   # class 2 (skip-default-trims-dict-leaf) repaired: /repo d576475
                    3: "skip-default-eq-conflates-types", 4: "json-nonfinite-float", 5: "unprintable-str",
                    6: "comments-reemit", 7: "enum-member-null", 8: "default-not-normalised",
-                   9: "skip-default-none-default-crash", 10: "skip-default-drops-dict-kwargs",
-                   12: "skip-default-prune-vs-carry-over"}
+                   12: "skip-default-prune-vs-carry-over"}   # 9, 10 repaired: /repo 2b39397 (fx_subclass_trim = true)
 # class 11 (skip_default pruned the init_args of a subclass spec) is outside the proved statement but NOT a finding: a
 # failure there is reported as a violation
 
@@ -927,7 +926,7 @@ META = {
                   "every parser (typed leaves under nested groups), configuration and variant (yaml/json, nulls kept or "
                   "dropped, skip_default; i.e. dump, print_config, save) inside the guard, if each leaf value survives its own "
                   "serialise/parse pair then dump -> text -> parse returns the configuration value for value and type for type. "
-                  "Eight _refuted witnesses show the unguarded statement false of the faithful model. Exercised by the "
+                  "Six _refuted witnesses show the unguarded statement false of the faithful model; two more are regression witnesses about the rule before /repo 2b39397. Exercised by the "
                   "correspondence only: that each accepted leaf value survives serialise/parse (leaf_stable is a premise of "
                   "(P), evaluated per case over the whole type grammar incl. Union/Literal/Enum/Set/Dict[int]/dataclass-typed values/subclass specs with dict_kwargs), the real "
                   "dump / --print_config / save+parse_path paths, nested groups, and the model itself (data handed to the "
@@ -936,7 +935,7 @@ META = {
                   "jfloat_text_ok; checked per observed float by the judge) and per-leaf stability; PyYAML's emitter/scanner "
                   "are trusted for document structure and for the characters of a scalar (known false for U+0085 and, from "
                   "JSON text, C1 controls / U+FFFE / U+FFFF / U+2028-9: finding unprintable-str). yaml_comments output "
-                  "(re-emitted by ruyaml) is not modelled (finding comments-reemit). Ten open findings are guarded by class (Model/C01Guard.v classes 1,3-10,12); class 11 (skip_default pruned a subclass spec's init_args) is outside the proved statement without being a finding: failures there are violations. Histories on one parser object (dump, parse, set_defaults, default config file) are exercised by the correspondence only "
+                  "(re-emitted by ruyaml) is not modelled (finding comments-reemit). Eight open findings are guarded by class (Model/C01Guard.v classes 1,3-8,12; 2, 9, 10 repaired in /repo); class 11 (skip_default pruned a subclass spec's init_args) is outside the proved statement without being a finding: failures there are violations. Histories on one parser object (dump, parse, set_defaults, default config file) are exercised by the correspondence only "
                   "(Model/C01Guard.v) and reported as KNOWN-FINDING. parser_mode yaml only; no dataclasses expanded as groups, no subclass specs inside containers or with nested class parameters, "
                   "subcommands, links, toml/jsonnet; a dataclass directly as the type of a leaf (behaves as an expanded group) is outside the space. No axioms (Print Assumptions: closed under the global context).",
     "technique": "Rocq proof: verified regex-inclusion certificates over regenerated resolver tables + structural induction on "
